@@ -1,7 +1,7 @@
 #!/bin/bash
 # re-trials every kept mutation in /verif/seeded against the current checks (scratch worktrees, /repo untouched), 4 in parallel.
 # usage: retrial.sh [name-glob]     log: /var/tmp/retrial.log   (a seeded/<name>/patch.rebased.diff, re-created after later fix: commits, is preferred)
-LOG=/var/tmp/retrial.log; : > $LOG; export LOG
+LOG=${LOG:-/var/tmp/retrial.log}; [ -n "${APPEND:-}" ] || : > $LOG; export LOG
 one() { d=$1; name=$(basename $d); id=${name:0:3}; ck=$id
   [ -f $d/check_id ] && ck=$(cat $d/check_id)
   p=$d/patch.diff; [ -f $d/patch.rebased.diff ] && p=$d/patch.rebased.diff
@@ -14,4 +14,4 @@ one() { d=$1; name=$(basename $d); id=${name:0:3}; ck=$id
   echo "$name [$ck]: $ex concrete=$nv unproved=$nu noapply=$na | $first" >> $LOG; }
 export -f one
 ls -d /verif/seeded/${1:-C*} | xargs -P ${JOBS:-4} -I{} bash -c 'one {}'
-echo DONE >> $LOG
+echo "DONE ${1:-all}" >> $LOG
